@@ -1015,12 +1015,18 @@ class PolyhedralTermList(TermList):  # noqa: WPS338
         assert n == len(b), "n is {} and b is {}".format(n, b)
         if helper_present:
             assert n_h == len(b_help)
-        else:
-            assert len(b_help) == 0
+        elif np.any(np.asarray(b_help) < 0):
+            # context rows without coefficients read 0 <= b
+            raise ValueError("The constraints are unsatisfiable")
         if helper_present and m > 0:
             assert m_h == m
         if n == 0:
             return a, b
+        if m == 0:
+            # rows without coefficients read 0 <= b: each is either implied by anything or unsatisfiable
+            if np.any(np.asarray(b) < 0):
+                raise ValueError("The constraints are unsatisfiable")
+            return a[:0], b[:0]
         if n == 1 and not helper_present:
             return a, b
 
@@ -1100,6 +1106,9 @@ class PolyhedralTermList(TermList):  # noqa: WPS338
         assert m_l == m_r
         assert n_l == len(b_l)
         assert n_r == len(b_r)
+        if m_r == 0:
+            # rows without coefficients: the RHS was found satisfiable, so each of its rows reads 0 <= b with b >= 0
+            return True
 
         is_refinement = True
         for i in range(n_r):
@@ -1154,7 +1163,10 @@ class PolyhedralTermList(TermList):  # noqa: WPS338
         if len(a) == 0:
             return False
         n, m = a.shape
-        if n * m == 0:
+        if m == 0:
+            # rows without coefficients read 0 <= b: nothing satisfies a negative bound
+            return bool(np.any(np.asarray(b) < 0))
+        if n == 0:
             return False
         assert n == len(b)
         objective = np.zeros((1, m))
